@@ -125,7 +125,9 @@ impl Monitor for C08 {
                     if t.len() < minlen {
                         return Outcome::Violated(vec![Finding::new("fact_minimum_length_too_large", format!("minimum_length = {}", minlen), format!("the unoptimised engine matches {:?} ({} chars)", e.text(), t.len()))]);
                     }
-                    if let Some(p) = &prefix {
+                    if let (Some(p), false) = (&prefix, c.aux.as_deref() == Some("irregular_case")) {
+                        // (not for the irregular-case slice: judging "is a prefix of, case-blind" there
+                        // would need the very case model this slice does without)
                         let pc: Vec<char> = p.chars().collect();
                         let ok = t.len() >= pc.len() && pc.iter().zip(t.iter()).all(|(x, y)| x == y || (ci && crate::uoracle::eq_ci(*x, *y)));
                         if !ok {
@@ -142,6 +144,9 @@ impl Monitor for C08 {
         }
         if let Err(o) = api(Ok::<(), Fail>(()), "") {
             return o;
+        }
+        if c.aux.as_deref() == Some("irregular_case") {
+            obs.count("irregular_case_letters_compared");
         }
         let interesting = has_shortcut || census.contains_key("UnambiguousRepeat") || census.contains_key("GreedyFixed");
         if interesting && !s.is_empty() {
@@ -174,6 +179,37 @@ impl Monitor for C08 {
             for _ in 0..3 {
                 let inp = gen_input(&mut rng, &ast, STD_EXTRA, 8);
                 emit(Case::new(&ast, fl, &inp));
+            }
+        }
+        // letters with irregular case relations under flag i (three-way folds, one-to-many
+        // mappings): no reference model covers them, but this monitor needs none - the shortcuts
+        // (prefix scan, initial class, first-set disjointness) must agree with the plain matcher
+        let ni = w.share(30_000, 1_000_000);
+        let irregular = super::refprops::IRREGULAR_CASE;
+        let mut cfg3 = GenCfg::std(irregular);
+        cfg3.props = false;
+        for k in 0..ni {
+            let ast = match k % 3 {
+                0 => {
+                    let w = 1 + rng.below(3);
+                    let mut v: Vec<Node> = (0..w).map(|_| Node::Char(*rng.pick(irregular))).collect();
+                    if rng.chance(1, 2) {
+                        v.push(gen_pattern(&mut rng, &cfg3));
+                    }
+                    Node::Cat(v).normalize()
+                }
+                1 => gen_shortcut(&mut rng, &cfg3),
+                _ => gen_pattern(&mut rng, &cfg3),
+            };
+            if !ast.valid_backrefs() {
+                continue;
+            }
+            let fl = *rng.pick(&["i", "i", "is", "im"]);
+            for _ in 0..2 {
+                let inp: String = gen_input(&mut rng, &ast, irregular, 8).chars().map(|ch| if rng.chance(1, 3) { *rng.pick(irregular) } else { ch }).collect();
+                let mut c = Case::new(&ast, fl, &inp);
+                c.aux = Some("irregular_case".to_string());
+                emit(c);
             }
         }
         J::obj().with("random_patterns_this_shard", J::u(n))
